@@ -100,10 +100,13 @@ def generate():
         raise vlib.InfraError("pw_formats[] not found")
     pwsyms = re.findall(r"&\s*(pw_\w+)", m.group(1))
     pwnames = {}
+    pwuntitled = set()     # detectors whose source file never calls pw_read_title: they leave `title` untouched
     for p in sorted(glob.glob(os.path.join(src, "loaders", "prowizard", "*.c"))):
         t = strip_c_comments(open(p, errors="replace").read())
         for mm in re.finditer(r"const\s+struct\s+pw_format\s+(pw_\w+)\s*=\s*\{\s*\"((?:[^\"\\]|\\.)*)\"", t):
             pwnames[mm.group(1)] = mm.group(2)
+            if not re.search(r"\bpw_read_title\s*\(", t):
+                pwuntitled.add(mm.group(1))
     missing = [s for s in pwsyms if s not in pwnames]
     if missing:
         raise vlib.InfraError("pw_format initialisers not found for %s" % missing)
@@ -140,6 +143,9 @@ def generate():
     L.append("/-- `pw_formats[]` (prowizard/prowiz.c) in table order: the `name` field of every entry -/")
     L.append("def pwFormatNames : List String := " + lean_str_list([pwnames[s] for s in pwsyms]))
     L.append("")
+    L.append("/-- ProWizard formats whose detector (source file) never calls `pw_read_title` -/")
+    L.append("def pwUntitledFormats : List String := " + lean_str_list([pwnames[s] for s in pwsyms if s in pwuntitled]))
+    L.append("")
     L.append("/-- `char title[N]` in `pw_check` and the size of `memcpy(info->name, title, N)` -/")
     L.append("def pwTitleBuf : Nat := %d" % tsize)
     L.append("def pwTitleCopy : Nat := %d" % csize)
@@ -150,7 +156,7 @@ def generate():
     L.append("end Xmp.TestLoad.Gen")
     changed = vlib.write_if_changed(OUT, "\n".join(L) + "\n")
     return dict(changed=changed, n_loaders=len(syms), n_pw=len(pwsyms), prepare_returns=rets,
-                pw_title_init=inits, names=[names[s] for s in syms], pwnames=[pwnames[s] for s in pwsyms])
+                pw_title_init=inits, pw_untitled=[pwnames[s] for s in pwsyms if s in pwuntitled], syms=syms, names=[names[s] for s in syms], pwnames=[pwnames[s] for s in pwsyms])
 
 
 if __name__ == "__main__":
